@@ -188,7 +188,7 @@ def decode_model(ans):
     if isinstance(m, Atom):
         return [str(m)]
     if m and m[0] == 'ok':
-        return ['ok', [[str(x[0]), x[1]] for x in m[1]]]
+        return ['ok', [[str(x[0]), x[1]] for x in m[1]], [int(x) for x in m[2]]]
     return [str(x) for x in m]
 
 
@@ -211,6 +211,16 @@ def compare(cases, res, stream):
         if real[0] == 'ok':
             real = ['ok', [[str(x[0]), x[1]] for x in real[1]]]
         res.streams[stream] = res.streams.get(stream, 0) + 1
+        hits = m.pop() if m[0] == 'ok' else None
+        if hits is not None and not positional(cases[i]):
+            # the model's ghost hit counters against the independent reference's firing counts
+            ref, fired = G.reference(cases[i])
+            if ref[0] == 'ok':
+                res.streams['match-hits'] = res.streams.get('match-hits', 0) + 1
+                want = [fired.get(k, 0) for k in range(len(hits))]
+                if hits != want:
+                    res.disagreements.append({'stream': 'match-hits', 'case': {'kind': 'ref', 'kids': cases[i]['kids']},
+                                              'model': repr(hits), 'real': 'reference: ' + repr(want)})
         if m != real:
             res.disagreements.append({'stream': stream, 'case': {'kind': 'ref', 'kids': cases[i]['kids']},
                                       'model': repr(m)[:600], 'real': repr(real)[:600]})
